@@ -93,25 +93,13 @@ func c13GenResources(r *vRand, n int, conflict bool) []*resource.Resource {
 			kvs := c13SetKVs(r, 3, false)
 			out = append(out, resource.NewWithAttributes(vPick(r, []string{"", "https://r/1", "https://r/2"}), kvs...))
 			if conflict && r.Intn(2) == 0 {
-				// same attribute set, other schema URL: same grouping key (Resource.Equivalent ignores the schema URL)
+				// same attribute set, other schema URL: another resource (grouping key = attributes + schema URL since 089ce94)
 				out = append(out, resource.NewWithAttributes("https://r/other", kvs...))
 			}
 		}
 	}
 	if len(out) == 0 {
 		out = append(out, nil)
-	}
-	if !conflict {
-		// F32 (resources with equal attribute sets that differ in schema URL / nil-ness) only under the tag
-		// "reskey": elsewhere a later resource with an already seen key is replaced by the first one
-		for i := range out {
-			for j := 0; j < i; j++ {
-				if out[j].Equivalent() == out[i].Equivalent() {
-					out[i] = out[j]
-					break
-				}
-			}
-		}
 	}
 	return out
 }
@@ -168,14 +156,28 @@ func c13GenSpanBatch(tag string, cs uint64) []tracesdk.ReadOnlySpan {
 	r := &vRand{s: cs}
 	switch tag {
 	case "wit-f16":
-		// minimal F16 witness: one span, one link whose span context carries a tracestate
+		// former F16 witness (repaired in fe0bf20): one span, one link whose span context carries a tracestate
 		ts, _ := trace.ParseTraceState("a=1")
 		l := trace.NewSpanContext(trace.SpanContextConfig{TraceID: trace.TraceID{1}, SpanID: trace.SpanID{2}, TraceState: ts})
 		s := tracetest.SpanStub{Name: "s", SpanContext: trace.NewSpanContext(trace.SpanContextConfig{TraceID: trace.TraceID{1}, SpanID: trace.SpanID{3}}),
 			Links: []tracesdk.Link{{SpanContext: l}}}
 		return []tracesdk.ReadOnlySpan{s.Snapshot()}
+	case "fixed":
+		// one span whose encoded size does not depend on the seed (fixed-length name and ids, fixed64 times)
+		var tid trace.TraceID
+		var sid trace.SpanID
+		for i := range tid {
+			tid[i] = 1 + byte(r.U64()%255)
+		}
+		for i := range sid {
+			sid[i] = 1 + byte(r.U64()%255)
+		}
+		st := tracetest.SpanStub{Name: "fixed-" + c13Hex16(r.U64()), SpanContext: trace.NewSpanContext(trace.SpanContextConfig{TraceID: tid, SpanID: sid}),
+			SpanKind: trace.SpanKindClient, StartTime: time.Unix(1700000000, int64(r.Intn(1000000000))), EndTime: time.Unix(1700000001, int64(r.Intn(1000000000))),
+			Attributes: []attribute.KeyValue{attribute.String("k", c13Hex16(r.U64()))}, Resource: resource.NewSchemaless(attribute.String("service.name", "fixed"))}
+		return []tracesdk.ReadOnlySpan{st.Snapshot()}
 	case "wit-f32":
-		// minimal F32 witness: same resource attributes, schema URLs "a" and "b"
+		// former F32 witness (repaired in 089ce94): same resource attributes, schema URLs "a" and "b"
 		mk := func(schema string, id byte) tracesdk.ReadOnlySpan {
 			return tracetest.SpanStub{Name: "s", SpanContext: trace.NewSpanContext(trace.SpanContextConfig{TraceID: trace.TraceID{1}, SpanID: trace.SpanID{id}}),
 				Resource: resource.NewWithAttributes(schema, attribute.String("r", "1"))}.Snapshot()
@@ -188,7 +190,7 @@ func c13GenSpanBatch(tag string, cs uint64) []tracesdk.ReadOnlySpan {
 		return []tracesdk.ReadOnlySpan{}
 	case "onespan":
 		res := c13GenResources(r, 1, false)
-		return []tracesdk.ReadOnlySpan{c13GenSpan(r, res[0], c13GenScope(r), 40).Snapshot()}
+		return []tracesdk.ReadOnlySpan{c13GenSpan(r, res[0], c13GenScope(r), 3).Snapshot()}
 	}
 	// "mix", "groups", "reskey": pools of resources and scopes, spans drawing from them
 	nRes, nSc, nSp := r.Intn(5), r.Intn(5), r.Intn(7)
@@ -203,9 +205,9 @@ func c13GenSpanBatch(tag string, cs uint64) []tracesdk.ReadOnlySpan {
 	if len(scs) == 0 {
 		scs = append(scs, instrumentation.Scope{})
 	}
-	linkTS := 80
+	linkTS := 4
 	if tag == "groups" {
-		linkTS = 1 << 30 // never: keeps the large grouping cases out of the F16 exclusion
+		linkTS = 4
 	}
 	out := make([]tracesdk.ReadOnlySpan, 0, nSp)
 	for i := 0; i < nSp; i++ {
